@@ -457,7 +457,7 @@ class AddonManager:
             # RLV-style OwnerSay?
             if RLVParser.is_rlv_message(message):
                 # RLV allows putting multiple commands into one message, blindly splitting on ",".
-                chat: str = message["ChatData"]["Message"]
+                chat: str = str(message["ChatData"]["Message"])
                 source = message["ChatData"]["SourceID"]
                 commands = RLVParser.parse_chat(chat)
                 # An empty command list ("@", "@,,") is not "all commands handled"
